@@ -80,7 +80,8 @@ class Ownership(Machine):
                        "mutator_on_copy", "transform_owner", "non_pointcloud_value_rejected", "copy_of_copy",
                        "apply_on_copy_pair", "apply_repeated_after_other_activity", "alignment_parameter_update",
                        "own_group_stored_under_second_name", "owner_taken_to_another_dimensionality",
-                       "own_manager_assigned_back")
+                       "own_manager_assigned_back", "identity_valued_transform", "inplace_composition_with_own_copy",
+                       "manager_whose_first_group_is_empty")
 
     @classmethod
     def swarm(cls, rng, tier):
@@ -205,7 +206,18 @@ class Ownership(Machine):
         self._put(Cell(o, "value", kind, d), op["dst"])
 
     def _op_new_manager(self, op):
-        self._put(Cell(LandmarkManager(), "manager", "LandmarkManager", None), op["dst"])
+        cell = Cell(LandmarkManager(), "manager", "LandmarkManager", None)
+        if op["seed"] % 4 == 1:
+            # a manager whose first group holds no point (yet): a group of d dimensions all the same, so the manager
+            # has that dimensionality from now on
+            d = 3 if op["d3"] else 2
+            v0 = PointCloud(np.zeros((0, d)))
+            cell.obj["empty"] = v0
+            cell.groups["empty"] = dg(v0)
+            cell.had_dim = d
+            cell.digest = dg(cell.obj)
+            self.ctx.probe("manager_whose_first_group_is_empty")
+        self._put(cell, op["dst"])
 
     def _op_new_other(self, op):
         kind = OTHER_KINDS[op["kind"] % len(OTHER_KINDS)]
@@ -214,6 +226,10 @@ class Ownership(Machine):
         if kind in gen.HOMOG_KINDS:
             d = 3 if op["d3"] else 2
             o = gen.homog_transform(kind, op["seed"], d)
+            if op["seed"] % 8 == 3:
+                # a transform that IS the identity (freshly initialised, as accumulators are)
+                o = type(o).init_identity(d)
+                self.ctx.probe("identity_valued_transform")
         elif kind in gen.ALIGN_KINDS or kind in ("ThinPlateSplines", "PiecewiseAffine"):
             src = gen.general_points(op["seed"], 6, 2)
             tgt = gen.target_for("AlignmentAffine", op["seed"] ^ 5, src)
@@ -648,11 +664,27 @@ class Ownership(Machine):
             x.components = x.components * 1.0 + 0.01
         elif isinstance(x, TransformChain):
             x.compose_before_inplace(gen.homog_transform("Translation", op["seed"], 2))
+        elif hasattr(x, "compose_before_inplace") and hasattr(x, "h_matrix") and op["seed"] % 4 == 2 and self._relatives(o):
+            # in-place composition with its own copy (or origin): the partner is only an argument, and the two stay
+            # independent afterwards (no buffer of the one has become a buffer of the other)
+            rel = self._relatives(o)
+            partner = rel[(op["seed"] >> 3) % len(rel)]
+            if op["seed"] & 4:
+                x.compose_after_inplace(partner.obj)
+            else:
+                x.compose_before_inplace(partner.obj)
+            self.ctx.probe("inplace_composition_with_own_copy")
+            self._static_sharing(x, partner.obj, o.kind, self._allowed(x), only=o.param_paths)
         elif hasattr(x, "compose_before_inplace") and hasattr(x, "h_matrix"):
             if op["seed"] & 1:
                 x.compose_before_inplace(x.copy())
             else:
                 x.from_vector_inplace(x.as_vector() * 1.01)
+
+    def _relatives(self, o):
+        """The other members of o's copy family (copies share the record of their parameter paths)."""
+        return [c for c in self.pool if c is not o and c.role == "other" and c.param_paths is o.param_paths
+                and type(c.obj) is type(o.obj)]
 
     def _op_apply(self, op):
         """A public, non-mutating operation on one side of a copy pair: apply the transform to one of three
